@@ -30,9 +30,20 @@ def _with_limit_alert_condition(xml: bytes) -> bytes:
     return xml.replace(anchor_d, descr + anchor_d).replace(anchor_s, state + anchor_s)
 
 
+def _with_more_contexts(xml: bytes) -> bytes:
+    """tests/mdib_two_mds.xml plus an ensemble and a workflow context descriptor in the system context of mds0."""
+    anchor = b'<LocationContext Handle="LC.mds0" DescriptorVersion="0"/>'
+    if xml.count(anchor) != 1:
+        raise RuntimeError('tests/mdib_two_mds.xml changed: cannot derive the fixture with more context descriptors')
+    return xml.replace(anchor, anchor + b'<EnsembleContext Handle="EC.mds0" DescriptorVersion="0"/>'
+                                        b'<WorkflowContext Handle="WC.mds0" DescriptorVersion="0"/>')
+
+
 def fixture(name: str) -> bytes:
     if name == 'mdib_two_mds_limit.xml':
         return _with_limit_alert_condition(fixture('mdib_two_mds.xml'))
+    if name == 'mdib_two_mds_ctx.xml':
+        return _with_more_contexts(fixture('mdib_two_mds.xml'))
     for base in (FIXTURES, os.path.join(REPO, 'tests')):
         p = os.path.join(base, name)
         if os.path.exists(p):
